@@ -33,12 +33,17 @@ struct Shared {
 struct HandlerCfg {
     capture_all: bool,
     acks: bool,
+    /// the reply is a multi-frame data event instead of a single-frame acknowledgement (the
+    /// replying node then transmits while its peer's next frames arrive, and the peer may
+    /// hold a partial reply while it transmits its next event)
+    long_reply: bool,
 }
 
 fn mk_handler(sim: &Sim, node: &'static str, idx: usize, cfg: &HandlerCfg, own: u16, reply_to: u16, sh: &Rc<RefCell<Shared>>) -> Box<dyn FnMut(&Packet, &mut Proto)> {
     let sim = sim.clone();
     let sh = sh.clone();
     let acks = cfg.acks;
+    let long_reply = cfg.long_reply;
     Box::new(move |p: &Packet, proto: &mut Proto| {
         let _g = crate::alloc::SimDomain::enter();
         sim.event(31, idx as u64, hash_packet(p), || format!("{}.handler[{}] called with {}", node, idx, show_packet(p)));
@@ -49,12 +54,21 @@ fn mk_handler(sim: &Sim, node: &'static str, idx: usize, cfg: &HandlerCfg, own: 
         if acks && depth < 3 {
             DEPTH.with(|d| d.set(depth + 1));
             let n = sh.borrow().acks.len() as u16;
-            let ev = AckEvent {
-                receiver_address: reply_to,
-                // unique per acknowledgement, so that every one is attributable
-                transmitter_address: own ^ n.wrapping_mul(0x0101),
+            let any = if long_reply {
+                let len = 20 + (n % 23) as usize;
+                AnyEvent::Data(ross_protocol::event::general::DataEvent {
+                    receiver_address: reply_to,
+                    transmitter_address: own ^ n.wrapping_mul(0x0101),
+                    data_len: len as u16,
+                    data: crate::gen::fill_pattern(0, n as u32, len),
+                })
+            } else {
+                AnyEvent::Ack(AckEvent {
+                    receiver_address: reply_to,
+                    // unique per acknowledgement, so that every one is attributable
+                    transmitter_address: own ^ n.wrapping_mul(0x0101),
+                })
             };
-            let any = AnyEvent::Ack(ev);
             if let Ok(pkt) = any.to_packet(0) {
                 let prev = crate::alloc::set_domain(crate::alloc::SUT);
                 let r = proto.send_packet(&pkt);
@@ -110,6 +124,7 @@ pub fn run(sim: &Sim, prop: &str, tier: Tier) -> Outcome {
         let c = HandlerCfg {
             capture_all: sim.flag(),
             acks: acking && sim.chance(60),
+            long_reply: sim.chance(40),
         };
         sh_b.borrow_mut().logs.push(Vec::new());
         let h = mk_handler(sim, "B", i, &c, b, a, &sh_b);
@@ -122,7 +137,7 @@ pub fn run(sim: &Sim, prop: &str, tier: Tier) -> Outcome {
     // the node receives, which also defines quiescence at the API level (a receiver may hold
     // received packets in an internal buffer, so empty wires alone do not mean "delivered")
     {
-        let c = HandlerCfg { capture_all: true, acks: false };
+        let c = HandlerCfg { capture_all: true, acks: false, long_reply: false };
         let i = cfg_b.len();
         sh_b.borrow_mut().logs.push(Vec::new());
         let h = mk_handler(sim, "B", i, &c, b, a, &sh_b);
@@ -136,6 +151,7 @@ pub fn run(sim: &Sim, prop: &str, tier: Tier) -> Outcome {
         let c = HandlerCfg {
             capture_all: sim.flag(),
             acks: false,
+            long_reply: false,
         };
         sh_a.borrow_mut().logs.push(Vec::new());
         let h = mk_handler(sim, "A", i, &c, a, b, &sh_a);
@@ -146,7 +162,7 @@ pub fn run(sim: &Sim, prop: &str, tier: Tier) -> Outcome {
     }
 
     {
-        let c = HandlerCfg { capture_all: true, acks: false };
+        let c = HandlerCfg { capture_all: true, acks: false, long_reply: false };
         let i = cfg_a.len();
         sh_a.borrow_mut().logs.push(Vec::new());
         let h = mk_handler(sim, "A", i, &c, a, b, &sh_a);
@@ -356,7 +372,7 @@ pub fn run(sim: &Sim, prop: &str, tier: Tier) -> Outcome {
     // each round ticks both nodes once; a round with anything outstanding delivers at least one packet
     // (a receiver may spread a long packet over several polls: frames count too)
     let frames_total: usize = planned.iter().map(|(_, p)| if p.data.len() <= 8 { 1 } else { (p.data.len() - 1) / 7 + 1 }).sum();
-    let budget = planned.len() + planned.len() * cfg_b.len() + frames_total + 4;
+    let budget = planned.len() + planned.len() * cfg_b.len() * 8 + frames_total + 4;
     // quiescence: the capture-all observers have seen everything that was put on the link
     // towards them; then two more rounds in which nothing further may show up
     let obs_b = cfg_b.len() - 1;
